@@ -16,7 +16,7 @@ for d in seeded/*/; do
   suite=FAIL
   for i in 1 2 3; do if (cd $wt && go test -vet=off -count=1 ./... >/tmp/seedmx-$name.suite 2>&1); then suite=pass; break; fi; grep -q "Log in goroutine after" /tmp/seedmx-$name.suite || break; done
   for id in $ids; do
-    r=$(VERIF_REPO=$wt timeout 1500 ./check $id quick 2>&1 | grep -E "^VIOLATION|\[ok\]|MACHINERY" | head -1 | cut -c1-80)
+    r=$(VERIF_REPO=$wt timeout 1500 ./check $id quick 2>&1 | grep -a -E "^VIOLATION|\[ok\]|MACHINERY" | head -1 | cut -c1-80)
     echo "$name suite=$suite $id: $r"
   done
   git -C /repo worktree remove --force $wt
